@@ -47,9 +47,12 @@ prop("C05", "other", _GENERIC + "Proved: the text of a character-string (dns.rda
      "(each escape form is read back as exactly that octet). Per-type text composition and the tokenizer are bounded.")
 prop("C06", "proof", "Name.fullcompare is proved totally correct against the RFC 4034 6.1 order (pyvc, all inputs); antisymmetry, "
      "reflexivity, transitivity, equality-iff-case-insensitive-labels and agreement with the subdomain predicates are Level-2 lemmas "
-     "over that contract; relativize/derelativize/parent/split/concatenate have label-exact contracts. Successor/predecessor and the "
-     "hash law are covered by the bounded stand-in (labelled bounded).",
-     assumptions=["A-order: bytes comparison is a strict total (lexicographic) order on octet strings; its transitivity is instantiated at the deciding label",
+     "over that contract; relativize/derelativize/parent/split/concatenate have label-exact contracts. Name.__hash__ is proved to be "
+     "the fold h = 9h + c over the ASCII-lowered labels (nested loop invariants over the real loops), and the induction step of "
+     "'equal names hash equally' is a Level-2 lemma (the induction principle over the label index is the one unchecked step). "
+     "Successor/predecessor are covered by the bounded stand-in (labelled bounded).",
+     assumptions=["A-lower: bytes.lower() is octet-wise ASCII lower-casing",
+                  "A-order: bytes comparison is a strict total (lexicographic) order on octet strings; its transitivity is instantiated at the deciding label",
                   "L-sum: additivity of the finite sum wirelen (instantiated, not re-proved by the solver)"])
 prop("C07", "other", _GENERIC + "Proved: Name equality contract (shared with C06); dns.set.Set add/remove/discard and the in-place union, "
      "intersection and difference against set theory over the abstract key set, including the self-aliasing cases. Copying forms, "
@@ -89,7 +92,10 @@ prop("C13", "other", _GENERIC + "Proved: RFC 1982 Serial comparison used for 'se
                   "(name identity, in-zone predicate, content signature, a transaction that commits or raises without effect)"])
 prop("C14", "other", _GENERIC + "Proved: dns.tsig._digest feeds the HMAC exactly the RFC 8945 4.3 digest components (first and "
      "subsequent messages, request MAC prefix, 48-bit time split) and _maybe_start_digest primes the next context with the "
-     "length-prefixed MAC; the HMAC context is a ghost concatenation (assumed). sign/validate composition and rejection are bounded.",
+     "length-prefixed MAC; the HMAC context is a ghost concatenation (assumed); dns.tsig.validate performs its checks in the "
+     "documented order with exact conditions (no additional record: FormError; peer error codes; BadTime exactly when the signing "
+     "time is outside the fudge window on either side; key name, then algorithm, case-insensitively; then the MAC over _digest's "
+     "components, modularly over the _digest contract). sign, the message-level composition and bit-flip rejection are bounded.",
      assumptions=["A-crypto: hashlib/hmac are trusted"])
 prop("C15", "other", _GENERIC + "Proved: DNSKEY key tag (RFC 4034 appendix B) with loop invariant over the real loop. Other computations are bounded.",
      assumptions=["A-crypto: hash functions are trusted"])
